@@ -141,7 +141,7 @@ func newUnknownResponse() *message {
 }
 
 func sendMessage(conn *net.UnixConn, msg *message) error {
-	b := make([]byte, 3+msg.Len)
+	b := make([]byte, 3+int(msg.Len))
 	b[0] = byte(msg.Type)
 	b[1] = byte(msg.Len >> 8) // big endian
 	b[2] = byte(msg.Len)
@@ -165,7 +165,7 @@ func readMessage(conn *net.UnixConn) (*message, error) {
 	msg := new(message)
 	msg.Type = messageType(b[0])
 	msg.Len = uint16(b[1])<<8 | uint16(b[2]) // big endian
-	if uint16(len(b[2:n])) < msg.Len {
+	if len(b[3:n]) != int(msg.Len) {
 		return nil, errors.New("incomplete data")
 	}
 	msg.Data = b[3 : 3+msg.Len]
